@@ -534,7 +534,12 @@ pub fn process<I: BufRead, O: Write>(
                     })?;
                     debug!("expr: {:?}", expr);
 
-                    let caps = context.define_regex.captures(expr).unwrap();
+                    let caps = context.define_regex.captures(expr).ok_or_else(|| Error::Syntax {
+                        filename: filename.clone(),
+                        included_in: included_in.clone(),
+                        line,
+                        msg: "Expected macro name after `#define`".to_string(),
+                    })?;
                     debug!("caps: {:?}", caps);
                     let mcro = &caps[1];
                     if context.get_macro(mcro).is_some() {
@@ -567,7 +572,15 @@ pub fn process<I: BufRead, O: Write>(
                         let params = caps.get(2).unwrap().as_str();
                         if !params.is_empty() {
                             for v in caps.get(2).unwrap().as_str().split(',') {
-                                let vx = v.trim_start();
+                                let vx = v.trim();
+                                if vx.is_empty() {
+                                    return Err(Error::Syntax {
+                                        filename: filename.clone(),
+                                        included_in: included_in.clone(),
+                                        line,
+                                        msg: format!("Empty parameter name in macro {}", mcro),
+                                    });
+                                }
                                 let re = Regex::new(&format!("\\b{}\\b", vx)).unwrap();
                                 value = re.replace_all(&value, format!("$${}", vx)).to_string();
                                 //rex += &format!("(?P<{}>[^,]*?),", vx);
